@@ -129,6 +129,35 @@ def check_history(acc):
         exp = (["F", "G"], ["v"], ["L"], ["J"], kw.merge_last_name_first)
         if got != exp or o != kw:
             acc.violation({"oracle": "nameparts_keep_their_parts", "how": how}, {"case": {"nameparts": how}, "observed": repr(got), "expected": repr(exp)})
+    # (d) a NameParts object edited in place between two merges (a corrected typo: p.last[0] = ..., an appended jr): every
+    # merge describes the parts as they are now - what a fresh NameParts with those parts gives
+    edits = {
+        "last[0] = 'Lamport'": lambda p: p.last.__setitem__(0, "Lamport"),
+        "first.append('Q.')": lambda p: p.first.append("Q."),
+        "von.clear()": lambda p: p.von.clear(),
+        "jr.append('III')": lambda p: p.jr.append("III"),
+        "first.insert(0, 'A.')": lambda p: p.first.insert(0, "A."),
+        "last += ['Jones']": lambda p: p.last.extend(["Jones"]),
+        "first = ['Zed'] (assignment)": lambda p: setattr(p, "first", ["Zed"]),
+    }
+    for name in CATALOGUE[:12]:
+        for ename, edit in edits.items():
+            for first_merge in ("merge_last_name_first", "merge_first_name_first", "both"):
+                case = {"nameparts_edited": name, "edit": ename, "merged_before": first_merge}
+                acc.trace(2)
+                acc.case(nontrivial_key=("nameparts-edited", name, ename, first_merge))
+                try:
+                    p = parse_single_name_into_parts(name)
+                    _ = [getattr(p, m) for m in (("merge_last_name_first", "merge_first_name_first") if first_merge == "both" else (first_merge,))]
+                    edit(p)
+                    got = (p.merge_last_name_first, p.merge_first_name_first)
+                    q = NameParts(first=list(p.first), von=list(p.von), last=list(p.last), jr=list(p.jr))
+                    exp = (q.merge_last_name_first, q.merge_first_name_first)
+                except Exception as ex:
+                    acc.exception(ex, case, "NameParts edited in place")
+                    continue
+                if got != exp:
+                    acc.violation({"oracle": "merge_describes_the_parts_as_they_are", "edit": ename.split("(")[0].split(" ")[0]}, {"case": case, "observed": list(got), "expected": list(exp)})
     groups = [CATALOGUE[i : i + 3] for i in range(0, 30, 3)]
     P = hostile.libraries() + [str_lib(g) for g in groups[:3]]  # unsplit names make MergeNameParts raise
     for style in ("last", "first"):
